@@ -80,14 +80,41 @@ func messagesFor(s *ref.Struct, tier universe.Tier, maxLen, maxCount int) [][]by
 		}
 		out = sel
 	}
-	// plus: the same message preceded by unknown fields of various wire types
+	// plus: the same message with one unknown field of each of several types, in front and at the back
+	// (a reader must skip them; truncations inside them exercise the skipper's bounds)
 	if len(out) > 0 {
-		unk := []byte{ref.WI32, 0x7f, 0x01, 0, 0, 0, 9, ref.WList, 0x7f, 0x02, ref.WString, 0, 0, 0, 1, 0, 0, 0, 1, 'x',
-			ref.WMap, 0x7f, 0x03, ref.WByte, ref.WStruct, 0, 0, 0, 1, 5, ref.WBool, 0, 1, 1, 0}
 		base := out[len(out)/2]
-		out = append(out, append(append([]byte{}, unk...), base...))
+		body := base[:len(base)-1] // without the STOP
+		for _, u := range unknownBlocks() {
+			front := append(append(append([]byte{}, u...), body...), 0)
+			back := append(append(append([]byte{}, body...), u...), 0)
+			out = append(out, front, back)
+		}
 	}
 	return out
+}
+
+var unkBlocks [][]byte
+
+// unknownBlocks: single encoded fields (header + value) with ids no reader of the family knows.
+func unknownBlocks() [][]byte {
+	if unkBlocks != nil {
+		return unkBlocks
+	}
+	sc := universe.Sc
+	lf := universe.Leaf()
+	types := []*ref.Type{
+		sc(ref.KI32), sc(ref.KBinary), universe.ListOf(sc(ref.KString)), universe.MapOf(sc(ref.KI8), universe.StPtr(lf)), universe.MapOf(sc(ref.KString), sc(ref.KI64)),
+		universe.MapOf(universe.StPtr(lf), sc(ref.KBool)), universe.SetOf(sc(ref.KDouble)), universe.StPtr(lf), universe.MapOf(sc(ref.KString), universe.ListOf(sc(ref.KI64))),
+		universe.ListOf(universe.MapOf(sc(ref.KString), sc(ref.KI16))),
+	}
+	for i, t := range types {
+		st := mk(fd(uint16(0x7f00+i), ref.ReqDefault, t))
+		v := &ref.Val{K: ref.KStruct, F: []*ref.Val{c11Fill(t, 2+i)}}
+		m := ref.Encode(st, v)
+		unkBlocks = append(unkBlocks, m[:len(m)-1])
+	}
+	return unkBlocks
 }
 
 var c05Symbols = []byte{0, 1, 2, 3, 4, 6, 8, 10, 11, 12, 13, 14, 15, 16, 0x7f, 0x80, 0xff}
